@@ -151,8 +151,23 @@ pub struct World {
     pub store: Option<Arc<PairingStore>>,
     pub pending_code: Option<(String, u64)>,
     pub alarm_id: Option<String>,
+    /// token strings that have been handed out as pairing tokens and may (still) be live: the harness's own
+    /// book-keeping for the oracle, independent of the code under test
+    pub issued: Mutex<Vec<String>>,
+    /// token strings that are certainly not valid in any correct implementation (expired before the case
+    /// began, disabled in the file, revoked through the store's API by the harness)
+    pub dead: Mutex<Vec<String>>,
+    keep_dir: bool,
     listener_fds: Vec<i32>,
     stop_responder: Arc<AtomicBool>,
+}
+
+/// What a restart keeps: the directory (pairing file, project files) and the clock.
+pub struct Reuse {
+    dir: PathBuf,
+    clock: Arc<AtomicU64>,
+    issued: Vec<String>,
+    dead: Vec<String>,
 }
 
 fn runtime_settings() -> RuntimeSettings {
@@ -263,19 +278,51 @@ pub static T_SEND_US: AtomicU64 = AtomicU64::new(0);
 impl World {
     pub fn new(base: &mut Base, cfg: &WorldCfg) -> World {
         let t0 = std::time::Instant::now();
-        let w = Self::new_inner(base, cfg);
+        let w = Self::new_inner(base, cfg, None);
         T_WORLD_US.fetch_add(t0.elapsed().as_micros() as u64, Ordering::Relaxed);
         w
     }
 
-    fn new_inner(base: &mut Base, cfg: &WorldCfg) -> World {
+    /// The runtime restarts: a new `ControlState` and server over the same directory (the pairing store is
+    /// re-opened from its file with `PairingStore::with_clock`), the same clock and the gate settings as
+    /// they are now (as if they came from the runtime's configuration).
+    pub fn reopen(mut self, base: &mut Base) -> World {
+        let cfg = WorldCfg {
+            token: self.state.auth_token.lock().unwrap().as_ref().map(|t| t.to_string()),
+            requires_auth: self.state.control_requires_auth,
+            debug_enabled: self.state.debug_enabled.load(Ordering::SeqCst),
+            debug_mode: matches!(*self.state.control_mode.lock().unwrap(), ControlMode::Debug),
+            pairing: self.store.is_some(),
+            tokens: Vec::new(),
+            tcp: self.tcp_addr.is_some(),
+        };
+        let reuse = Reuse {
+            dir: self.dir.clone(),
+            clock: self.clock.clone(),
+            issued: self.issued.lock().unwrap().clone(),
+            dead: self.dead.lock().unwrap().clone(),
+        };
+        self.keep_dir = true;
+        drop(self);
+        Self::new_inner(base, &cfg, Some(reuse))
+    }
+
+    fn new_inner(base: &mut Base, cfg: &WorldCfg, reuse: Option<Reuse>) -> World {
         let seq = WORLD_SEQ.fetch_add(1, Ordering::SeqCst);
         let tmp = if Path::new("/dev/shm").is_dir() { PathBuf::from("/dev/shm") } else { std::env::temp_dir() };
-        let dir = tmp.join(format!("vh-c18-{}-{}", std::process::id(), seq));
-        let _ = std::fs::remove_dir_all(&dir);
+        let dir = match &reuse {
+            Some(r) => r.dir.clone(),
+            None => {
+                let dir = tmp.join(format!("vh-c18-{}-{}", std::process::id(), seq));
+                let _ = std::fs::remove_dir_all(&dir);
+                dir
+            }
+        };
         let root = dir.join("project");
         std::fs::create_dir_all(&root).expect("mkdir world");
-        std::fs::write(root.join("hmi.toml"), HMI_TOML).expect("hmi.toml");
+        if reuse.is_none() {
+            std::fs::write(root.join("hmi.toml"), HMI_TOML).expect("hmi.toml");
+        }
         // debugger control with a snapshot of the compiled program's storage
         let debug = DebugControl::new();
         {
@@ -335,8 +382,19 @@ impl World {
             &sources,
         )));
         // pairing store with a controllable clock and a prepared token file
-        let clock = Arc::new(AtomicU64::new(NOW0));
-        let (store, pending_code) = if cfg.pairing {
+        let clock = match &reuse {
+            Some(r) => r.clock.clone(),
+            None => Arc::new(AtomicU64::new(NOW0)),
+        };
+        let (store, pending_code) = if cfg.pairing && reuse.is_some() {
+            // restart: whatever the store last wrote to its file is what it knows now
+            let c = clock.clone();
+            let store = Arc::new(PairingStore::with_clock(
+                dir.join("pairing.json"),
+                Arc::new(move || c.load(Ordering::SeqCst)),
+            ));
+            (Some(store), None)
+        } else if cfg.pairing {
             let path = dir.join("pairing.json");
             let toks: Vec<J> = cfg
                 .tokens
@@ -407,7 +465,15 @@ impl World {
                 .map(str::to_string)
         };
         let state = Arc::new(state);
-        let sock = dir.join("c.sock");
+        let sock = dir.join(format!("c{seq}.sock"));
+        let (issued, dead) = match reuse {
+            Some(r) => (r.issued, r.dead),
+            None if cfg.pairing => (
+                cfg.tokens.iter().filter(|t| t.enabled && t.expires_at >= NOW0).map(|t| t.token.clone()).collect(),
+                cfg.tokens.iter().filter(|t| !(t.enabled && t.expires_at >= NOW0)).map(|t| t.token.clone()).collect(),
+            ),
+            None => (Vec::new(), Vec::new()),
+        };
         let mut tcp_addr = None;
         if cfg.tcp {
             // a free loopback port (probe, release, bind again; retried if somebody else grabbed it)
@@ -440,8 +506,38 @@ impl World {
             store,
             pending_code,
             alarm_id,
+            issued: Mutex::new(issued),
+            dead: Mutex::new(dead),
+            keep_dir: false,
             listener_fds,
             stop_responder,
+        }
+    }
+
+    /// Is the credential of this line valid?  Judged by exact equality with the configured token and by
+    /// the harness's own list of pairing tokens, never by asking the code under test:
+    /// `open` no token configured, `token` exactly the configured token, `maybe` a pairing token that was
+    /// handed out and may be live, `no` certainly not valid, `-` not a request / decoded lossily.
+    pub fn judge(&self, bytes: &[u8]) -> &'static str {
+        let bytes = bytes.strip_suffix(b"\r").unwrap_or(bytes);
+        let Ok(text) = std::str::from_utf8(bytes) else {
+            return "-";
+        };
+        let Ok(req) = serde_json::from_str::<J>(text).and_then(serde_json::from_value::<MirrorRequest>) else {
+            return "-";
+        };
+        let configured = self.state.auth_token.lock().unwrap().as_ref().map(|t| t.to_string());
+        match (configured, req.auth) {
+            (None, _) => "open",
+            (Some(_), None) => "no",
+            (Some(t), Some(a)) if a == t => "token",
+            (Some(_), Some(a)) => {
+                if self.store.is_some() && self.issued.lock().unwrap().contains(&a) && !self.dead.lock().unwrap().contains(&a) {
+                    "maybe"
+                } else {
+                    "no"
+                }
+            }
         }
     }
 
@@ -557,7 +653,9 @@ impl Drop for World {
                 libc::shutdown(*fd, libc::SHUT_RDWR);
             }
         }
-        let _ = std::fs::remove_dir_all(&self.dir);
+        if !self.keep_dir {
+            let _ = std::fs::remove_dir_all(&self.dir);
+        }
     }
 }
 
@@ -759,7 +857,8 @@ fn std_tokens() -> Vec<PTok> {
 }
 
 pub const CREDS: &[&str] = &[
-    "none", "wrong", "near", "empty", "admin", "pv", "po", "pe", "pa", "expired", "revoked", "boundary",
+    "none", "wrong", "near", "empty", "prefix", "suffix", "case", "ws", "pprefix", "admin", "pv", "po", "pe", "pa",
+    "expired", "revoked", "boundary",
 ];
 
 fn cred_token(cred: &str) -> Option<String> {
@@ -768,6 +867,11 @@ fn cred_token(cred: &str) -> Option<String> {
         "wrong" => Some("not-the-token".into()),
         "near" => Some(format!("{ADMIN_TOKEN} ")),
         "empty" => Some(String::new()),
+        "prefix" => Some(ADMIN_TOKEN[..5].to_string()),
+        "suffix" => Some(format!("{ADMIN_TOKEN}x")),
+        "case" => Some(ADMIN_TOKEN.to_ascii_uppercase()),
+        "ws" => Some(format!(" {ADMIN_TOKEN}\t")),
+        "pprefix" => Some("tok-admin-DD".into()),
         "admin" => Some(ADMIN_TOKEN.into()),
         "pv" => Some("tok-viewer-AAAA".into()),
         "po" => Some("tok-operator-BBBB".into()),
@@ -1186,6 +1290,7 @@ fn do_line_as(
     cw: &mut CaseWriter,
     cred: &str,
 ) -> (String, Option<J>) {
+    let valid = w.judge(bytes);
     let before = w.probes();
     let t0 = std::time::Instant::now();
     let reply = client.send(bytes);
@@ -1210,7 +1315,11 @@ fn do_line_as(
         .and_then(J::as_str)
         .unwrap_or("")
         .to_string();
-    cw.out.line(abstract_line(bytes, eff, &nonce, bad_keys, cred));
+    if let Some(tok) = value.as_ref().and_then(|v| v.get("result")).and_then(|r| r.get("token")).and_then(J::as_str) {
+        w.issued.lock().unwrap().push(tok.to_string());
+    }
+    cw.out.count(&format!("valid:{valid}"));
+    cw.out.line(abstract_line(bytes, eff, &nonce, bad_keys, &format!("{cred} valid={valid}")));
     let fxs = if fx.is_empty() { "-".to_string() } else { fx.join(",") };
     cw.out.line(format!("impl {class} fx={fxs}"));
     let short = class.split(' ').last().unwrap_or("").split(':').next().unwrap_or("").to_string();
@@ -1261,6 +1370,130 @@ fn claimcheck(w: &World, cw: &mut CaseWriter) {
         cw.out.line(format!("claimcheck {}", hexs(code)));
         cw.out.line(format!("impl {}", if ok { "ok" } else { "fail" }));
     }
+}
+
+/// Direct `PairingStore::revoke(id)` (what the web UI's revoke button does); the harness then knows for
+/// certain that the tokens with that id are dead.
+fn direct_revoke(w: &World, id: &str, cw: &mut CaseWriter) {
+    if let Some(store) = &w.store {
+        let ok = store.revoke(id);
+        cw.out.line(format!("revoke {}", hexs(id)));
+        cw.out.line(format!("impl {}", if ok { "ok" } else { "fail" }));
+        for t in std_tokens() {
+            if t.id == id {
+                w.dead.lock().unwrap().push(t.token);
+            }
+        }
+    }
+}
+
+/// Histories across a runtime restart: the pairing store is re-opened from its file, so what was revoked,
+/// expired or claimed before must be exactly that afterwards; a pending code is gone.
+fn reload_scenario(rng: &mut Rng, base: &mut Base, t: &Tables, cfg: &WorldCfg, out: &mut Out) -> bool {
+    let w = World::new(base, cfg);
+    world_lines(cfg, &w, out);
+    let orig_code = w.pending_code.clone();
+    let mut cw = CaseWriter { out, nontrivial: false };
+    cw.out.count("scenario:reload");
+    let mut client = w.connect();
+    let mut present: Vec<Option<String>> = Vec::new();
+    let mut claim_after: Option<String> = None;
+    let sub = rng.below(6);
+    cw.out.count(&format!("reload-kind:{sub}"));
+    match sub {
+        0 => {
+            // revoke through the endpoint, restart, present the revoked token
+            let who = *rng.pick(&["admin", "pa", "admin", "pe"]);
+            let (id, cred) = *rng.pick(&[("pair-e", "pe"), ("pair-o", "po"), ("pair-v", "pv"), ("all", "pe"), ("all", "pa")]);
+            let b = request_bytes(20, "pair.revoke", cred_token(who).as_deref(), Some(&json!({"id": id})), rng);
+            do_line(&w, &mut client, &b, true, &[], &mut cw);
+            present.push(cred_token(cred));
+            present.push(cred_token(*rng.pick(&["po", "pe", "pv", "pa"])));
+        }
+        1 => {
+            // revoke through the store's own API, restart, present the revoked token
+            let (id, cred) = *rng.pick(&[("pair-e", "pe"), ("pair-o", "po"), ("pair-a", "pa"), ("pair-v", "pv")]);
+            direct_revoke(&w, id, &mut cw);
+            present.push(cred_token(cred));
+            present.push(cred_token(*rng.pick(&["po", "pe", "pa"])));
+        }
+        2 => {
+            // what was disabled or expired in the file before stays so
+            present.push(cred_token("revoked"));
+            present.push(cred_token("expired"));
+            present.push(cred_token(*rng.pick(&["pe", "boundary", "pv"])));
+        }
+        3 => {
+            // a code started before the restart cannot be claimed after it
+            let b = request_bytes(21, "pair.start", cred_token(*rng.pick(&["admin", "pa"])).as_deref(), None, rng);
+            let (_, v) = do_line(&w, &mut client, &b, true, &[], &mut cw);
+            claim_after = v
+                .as_ref()
+                .and_then(|v| v["result"]["code"].as_str())
+                .map(str::to_string)
+                .or_else(|| orig_code.as_ref().map(|c| c.0.clone()));
+        }
+        4 => {
+            // a token claimed before the restart keeps exactly its (sanitised) role
+            let code = orig_code.as_ref().map(|c| c.0.clone()).unwrap_or_default();
+            let role = *rng.pick(&["viewer", "operator", "engineer", "admin"]);
+            let b = request_bytes(22, "pair.claim", cred_token(*rng.pick(&["po", "pe", "admin"])).as_deref(), Some(&json!({"code": code, "role": role})), rng);
+            let (_, v) = do_line(&w, &mut client, &b, true, &[], &mut cw);
+            let minted = v.as_ref().and_then(|v| v["result"]["token"].as_str()).map(str::to_string);
+            if rng.chance(1, 3) {
+                // ... unless it is revoked before the restart
+                let id = format!("pair-{}", w.clock.load(Ordering::SeqCst));
+                let b = request_bytes(23, "pair.revoke", cred_token("admin").as_deref(), Some(&json!({"id": id})), rng);
+                do_line(&w, &mut client, &b, true, &[], &mut cw);
+            }
+            present.push(minted.or_else(|| cred_token("wrong")));
+        }
+        _ => {
+            // expiry across the restart
+            present.push(cred_token(*rng.pick(&["pe", "boundary", "po"])));
+            present.push(cred_token("boundary"));
+        }
+    }
+    let tick = |w: &World, cw: &mut CaseWriter, rng: &mut Rng| {
+        let dt = *rng.pick(&[1u64, 299, 300, 301, 4999, 5000, 5001]);
+        w.clock.fetch_add(dt, Ordering::SeqCst);
+        cw.out.line(format!("tick {dt}"));
+    };
+    if sub == 5 || rng.chance(1, 5) {
+        tick(&w, &mut cw, rng);
+    }
+    drop(client);
+    let w = w.reopen(base);
+    cw.out.line("reload");
+    let mut client = w.connect();
+    if rng.chance(1, 4) {
+        tick(&w, &mut cw, rng);
+    }
+    if let Some(code) = claim_after {
+        let b = request_bytes(24, "pair.claim", cred_token(*rng.pick(&["po", "pe", "admin"])).as_deref(), Some(&json!({"code": code, "role": "engineer"})), rng);
+        let (_, v) = do_line(&w, &mut client, &b, true, &[], &mut cw);
+        let minted = v.as_ref().and_then(|v| v["result"]["token"].as_str()).map(str::to_string);
+        present.push(minted.or_else(|| cred_token("wrong")));
+    }
+    for auth in present {
+        let (ty, params) = rng
+            .pick(&[("status", None), ("restart", Some(json!({"mode": "warm"}))), ("io.read", None), ("pair.list", None), ("config.get", None)])
+            .clone();
+        let b = request_bytes(25 + rng.below(1000), ty, auth.as_deref(), params.as_ref(), rng);
+        do_line(&w, &mut client, &b, true, &[], &mut cw);
+        if ty == "restart" {
+            // a second restart request would not be visible: stop presenting after it
+            break;
+        }
+    }
+    // the code the case began with is gone after a restart
+    if let (Some(store), Some((code, _))) = (&w.store, &orig_code) {
+        let ok = store.claim(code, None).is_some();
+        cw.out.line(format!("claimcheck {}", hexs(code)));
+        cw.out.line(format!("impl {}", if ok { "ok" } else { "fail" }));
+    }
+    let _ = t;
+    cw.nontrivial
 }
 
 fn gen_cfg(rng: &mut Rng, force: Option<(bool, bool, bool)>) -> WorldCfg {
@@ -1446,9 +1679,18 @@ fn run_case(n: u64, args: &Args, base: &mut Base, t: &Tables, out: &mut Out) {
         drop(client);
         drop(w);
     } else {
-        let kind = (n - ex) % 8;
+        let kind = (n - ex) % 9;
         let cfg = gen_cfg(&mut rng, None);
         let mut cfg = cfg;
+        if kind == 8 {
+            cfg.pairing = true;
+            let nontrivial = reload_scenario(&mut rng, base, t, &cfg, out);
+            if nontrivial {
+                out.line("tag nontrivial");
+            }
+            out.line("end");
+            return;
+        }
         if kind >= 2 && kind <= 6 {
             cfg.pairing = true;
         }
